@@ -570,7 +570,9 @@ json observe(Session &s) {
     if (!s.roHash.empty() && fileHash(s.path) != s.roHash) o["issues"].push_back("file bytes changed during / after a read-only session");
     if (s.open) {
         Walk w(s);
-        w.walkFile();
+        // a getter of the public API that throws while the file is being looked at is a disagreement with the specification
+        // (every entity of a file produced by the library can be read), not a failure of the machinery
+        try { w.walkFile(); } catch (const std::exception &ex) { w.issue(std::string("looking at the file threw: ") + ex.what() + " [" + g_h5err.substr(0, 160) + "]"); }
         std::vector<json> v(w.ents.begin(), w.ents.end());
         std::sort(v.begin(), v.end(), [](const json &a, const json &b) { return a["eid"].get<long>() < b["eid"].get<long>(); });
         o["ents"] = v;
